@@ -188,9 +188,9 @@ theorem setStorage_frame (cid : Nat) (m : Mod) (s : State) (live : List Live) :
 
 theorem restoreStorage_frame (s : State) : FrameX s (restoreStorage s) := by
   unfold restoreStorage
-  split
-  · exact ⟨rfl, rfl, rfl, rfl, rfl, rfl⟩
-  · exact FrameX.rfl' s
+  split <;> exact ⟨rfl, rfl, rfl, rfl, rfl, rfl⟩
+
+theorem restoreStorage_socks (s : State) : (restoreStorage s).socks = s.socks := (restoreStorage_frame s).socks
 
 theorem provisionContext_frame (cid : Nat) (c : Cfg) (pp : List Nat) (s : State) :
     FrameX s (provisionContext cid c pp s).1 := by
@@ -732,19 +732,19 @@ theorem run_frame4 (cid : Nat) (c : Cfg) (e : Env) (s : State) : Frame4 s (run c
     | some ctx =>
       dsimp only
       split
-      · exact h1.trans (cancel_frame _ _ _ _ _).to4
+      · exact (h1.trans (cancel_frame _ _ _ _ _).to4).trans (restoreStorage_frame _).to4
       have h2 := startApps_frame4 cid e.blocked (order e.ps ctx.apps) [] s1
       generalize startApps cid e.blocked [] (order e.ps ctx.apps) s1 = r2 at h2
       obtain ⟨s2, b⟩ := r2
       cases b with
-      | false => exact (h1.trans h2).trans (cancel_frame _ _ _ _ _).to4
+      | false => exact ((h1.trans h2).trans (cancel_frame _ _ _ _ _).to4).trans (restoreStorage_frame _).to4
       | true =>
         dsimp only
         have h3 := (finishSettingUp_spec ctx e.post s2).1.to4
         generalize finishSettingUp ctx e.post s2 = r3 at h3
         obtain ⟨s3, ctx', b3⟩ := r3
         cases b3 with
-        | false => dsimp only; exact ((h1.trans h2).trans h3).trans (unsyncedStop_frame4 _ _)
+        | false => dsimp only; exact (((h1.trans h2).trans h3).trans (unsyncedStop_frame4 _ _)).trans (restoreStorage_frame _).to4
         | true => dsimp only; exact (h1.trans h2).trans h3
 
 /-- an accepted run: the context is the new one and the sockets are exactly the old ones plus
@@ -834,6 +834,7 @@ theorem run_err {cid : Nat} {c : Cfg} {e : Env} {s s' : State} {o : Option Ctx} 
       split at h
       · simp at h
         obtain ⟨rfl, _, _⟩ := h
+        rw [restoreStorage_socks]
         exact (cancel_frame cid ctx.cbs ctx.wkeys ctx.live s1).socks.trans h1.socks
       have hf := own_startApps_fail e.blocked hb (order e.ps ctx.apps) [] s1 (by simpa using base1)
       generalize h2 : startApps cid e.blocked [] (order e.ps ctx.apps) s1 = r2 at h hf
@@ -843,7 +844,7 @@ theorem run_err {cid : Nat} {c : Cfg} {e : Env} {s s' : State} {o : Option Ctx} 
         simp at h
         obtain ⟨rfl, _, _⟩ := h
         have hs := (cancel_frame cid ctx.cbs ctx.wkeys ctx.live s2).socks
-        rw [hs]
+        rw [restoreStorage_socks, hs]
         exact (hf rfl).nil
       | true =>
         dsimp only at h
@@ -855,6 +856,7 @@ theorem run_err {cid : Nat} {c : Cfg} {e : Env} {s s' : State} {o : Option Ctx} 
         | false =>
           simp at h
           obtain ⟨rfl, _, _⟩ := h
+          rw [restoreStorage_socks]
           unfold unsyncedStop
           dsimp only
           rw [(cancel_frame _ _ _ _ _).socks]
@@ -1209,7 +1211,7 @@ theorem validate_frame (c : Cfg) (e : Env) (s : State) : FrameX s (validate c e 
   | none =>
     cases o with
     | none => exact h1
-    | some ctx => exact h1.trans (cancel_frame _ _ _ _ _).toX
+    | some ctx => exact (h1.trans (cancel_frame _ _ _ _ _).toX).trans (restoreStorage_frame _)
 
 /-- one operation keeps the invariant; the spec is told only whether the operation was accepted -/
 theorem inv_step {s : State} {r : Option Cfg} (h : Inv s r) (op : Op) :
@@ -1290,17 +1292,20 @@ theorem setStorage_ok {cid : Nat} {m : Mod} {s s' : State} {live live' : List Li
       | none => simp at h; rw [← h.1]
       | some r => simp at h
 
-theorem restoreStorage_dstor (s : State) (ctx : Ctx) (h : s.cur = some ctx) :
-    (restoreStorage s).dstor = ctx.stor := by
-  unfold restoreStorage; rw [h]
+/-- the storage of the configuration that is current; caddy's DefaultStorage (0) if none is -/
+def storOf : Option Ctx → Nat
+  | some ctx => ctx.stor
+  | none => 0
+
+theorem restoreStorage_dstor (s : State) : (restoreStorage s).dstor = storOf s.cur := by
+  unfold restoreStorage storOf; split <;> rename_i h <;> rw [h]
 
 /-- provisionContext and the default storage: on success it is the new config's storage (also
     recorded in the context); on failure it is put back to the storage of the configuration that
-    is current — if there is one. -/
+    is current, or to caddy's DefaultStorage if none is. -/
 theorem provisionContext_dstor (cid : Nat) (c : Cfg) (pp : List Nat) (s : State) :
     (∀ s1 ctx, provisionContext cid c pp s = (s1, some ctx, none) → s1.dstor = c.stor.key ∧ ctx.stor = c.stor.key) ∧
-    (∀ r cur, (provisionContext cid c pp s).2.2 = some r → s.cur = some cur →
-      (provisionContext cid c pp s).1.dstor = cur.stor) ∧
+    (∀ r, (provisionContext cid c pp s).2.2 = some r → (provisionContext cid c pp s).1.dstor = storOf s.cur) ∧
     ((provisionContext cid c pp s).2.2 = none → ∃ ctx, (provisionContext cid c pp s).2.1 = some ctx) := by
   unfold provisionContext
   have h1 := openLogs_frame cid c.logs s
@@ -1308,8 +1313,9 @@ theorem provisionContext_dstor (cid : Nat) (c : Cfg) (pp : List Nat) (s : State)
   obtain ⟨s1, live1, wk, o1⟩ := r1
   cases o1 with
   | some r =>
-    refine ⟨fun _ _ hh => by simp at hh, fun _ cur _ hc => ?_, fun hh => by simp at hh⟩
-    exact restoreStorage_dstor _ cur (((cancel_frame _ _ _ _ _).cur.trans h1.cur).trans hc)
+    refine ⟨fun _ _ hh => by simp at hh, fun _ _ => ?_, fun hh => by simp at hh⟩
+    show (restoreStorage _).dstor = _
+    rw [restoreStorage_dstor, (cancel_frame _ _ _ _ _).cur, h1.cur]
   | none =>
     dsimp only
     have h1' := setStorage_frame cid c.stor s1 live1
@@ -1319,8 +1325,9 @@ theorem provisionContext_dstor (cid : Nat) (c : Cfg) (pp : List Nat) (s : State)
     obtain ⟨s1', live1', o1'⟩ := r1'
     cases o1' with
     | some r =>
-      refine ⟨fun _ _ hh => by simp at hh, fun _ cur _ hc => ?_, fun hh => by simp at hh⟩
-      exact restoreStorage_dstor _ cur ((((cancel_frame _ _ _ _ _).cur.trans h1'.cur).trans h1.cur).trans hc)
+      refine ⟨fun _ _ hh => by simp at hh, fun _ _ => ?_, fun hh => by simp at hh⟩
+      show (restoreStorage _).dstor = _
+      rw [restoreStorage_dstor, (cancel_frame _ _ _ _ _).cur, h1'.cur, h1.cur]
     | none =>
       dsimp only
       have hk' := hk s1' live1' rfl
@@ -1329,11 +1336,11 @@ theorem provisionContext_dstor (cid : Nat) (c : Cfg) (pp : List Nat) (s : State)
       obtain ⟨s2, live2, o2⟩ := r2
       cases o2 with
       | some r =>
-        refine ⟨fun _ _ hh => by simp at hh, fun _ cur _ hc => ?_, fun hh => by simp at hh⟩
-        exact restoreStorage_dstor _ cur
-          (((((cancel_frame _ _ _ _ _).cur.trans h2.cur).trans h1'.cur).trans h1.cur).trans hc)
+        refine ⟨fun _ _ hh => by simp at hh, fun _ _ => ?_, fun hh => by simp at hh⟩
+        show (restoreStorage _).dstor = _
+        rw [restoreStorage_dstor, (cancel_frame _ _ _ _ _).cur, h2.cur, h1'.cur, h1.cur]
       | none =>
-        refine ⟨fun s1x ctx hh => ?_, fun r cur hh => by simp at hh, fun _ => ⟨_, rfl⟩⟩
+        refine ⟨fun s1x ctx hh => ?_, fun r hh => by simp at hh, fun _ => ⟨_, rfl⟩⟩
         simp at hh
         obtain ⟨rfl, rfl⟩ := hh
         exact ⟨h2.dstor.trans hk', h2.dstor.trans hk'⟩
@@ -1389,23 +1396,20 @@ theorem finishSettingUp_stor (ctx : Ctx) (post : Bool) (s : State) :
   cases post <;> rfl
 
 /-- run and the default storage: an accepted run leaves it at the new config's storage; a run
-    rejected by provisionContext puts it back to the current config's (if any); a run rejected
-    AFTER provisionContext succeeded (admin routers, Start, post-start) leaves it at the REJECTED
-    config's storage -/
+    rejected ANYWHERE (provisionContext, admin routers, Start, post-start) puts it back to the
+    storage of the configuration that is current, or to caddy's DefaultStorage if none is -/
 theorem run_dstor (cid : Nat) (c : Cfg) (e : Env) (s : State) :
     (∀ s' ctx, run cid c e s = (s', some ctx, .ok) → s'.dstor = c.stor.key ∧ ctx.stor = c.stor.key) ∧
-    ((provisionContext cid c e.pp s).2.2 = none → (run cid c e s).2.2 ≠ .ok →
-      (run cid c e s).1.dstor = c.stor.key) ∧
-    (∀ r0 cur, (provisionContext cid c e.pp s).2.2 = some r0 → s.cur = some cur →
-      (run cid c e s).1.dstor = cur.stor) := by
+    ((run cid c e s).2.2 ≠ .ok → (run cid c e s).1.dstor = storOf s.cur) := by
   unfold run
   have hd := provisionContext_dstor cid c e.pp s
-  generalize provisionContext cid c e.pp s = r1 at hd
+  have hf := provisionContext_frame cid c e.pp s
+  generalize provisionContext cid c e.pp s = r1 at hd hf
   obtain ⟨s1, o1, e1⟩ := r1
   cases e1 with
   | some r =>
-    refine ⟨fun _ _ hh => by simp at hh, fun hh => by simp at hh, fun r0 cur _ hc => ?_⟩
-    exact hd.2.1 r cur rfl hc
+    refine ⟨fun _ _ hh => by simp at hh, fun _ => ?_⟩
+    exact hd.2.1 r rfl
   | none =>
     obtain ⟨ctx, hctx⟩ := hd.2.2 rfl
     simp only at hctx
@@ -1414,21 +1418,24 @@ theorem run_dstor (cid : Nat) (c : Cfg) (e : Env) (s : State) :
     dsimp only
     by_cases hadm : e.adm = 2
     · simp only [hadm, if_true]
-      refine ⟨fun _ _ hh => by simp at hh, fun _ _ => ?_, fun _ _ hh => by simp at hh⟩
-      rw [(cancel_frame _ _ _ _ _).dstor]; exact hk1
+      refine ⟨fun _ _ hh => by simp at hh, fun _ => ?_⟩
+      show (restoreStorage _).dstor = _
+      rw [restoreStorage_dstor, (cancel_frame _ _ _ _ _).cur, hf.cur]
     simp only [hadm, if_false]
-    have hs := startApps_dstor cid e.blocked (order e.ps ctx.apps) [] s1
-    generalize startApps cid e.blocked [] (order e.ps ctx.apps) s1 = r2 at hs
+    have hs := startApps_frame4 cid e.blocked (order e.ps ctx.apps) [] s1
+    have hsd := startApps_dstor cid e.blocked (order e.ps ctx.apps) [] s1
+    generalize startApps cid e.blocked [] (order e.ps ctx.apps) s1 = r2 at hs hsd
     obtain ⟨s2, b⟩ := r2
-    simp only at hs
+    simp only at hsd
     cases b with
     | false =>
       dsimp only
-      refine ⟨fun _ _ hh => by simp at hh, fun _ _ => ?_, fun _ _ hh => by simp at hh⟩
-      rw [(cancel_frame _ _ _ _ _).dstor, hs]; exact hk1
+      refine ⟨fun _ _ hh => by simp at hh, fun _ => ?_⟩
+      show (restoreStorage _).dstor = _
+      rw [restoreStorage_dstor, (cancel_frame _ _ _ _ _).cur, hs.cur, hf.cur]
     | true =>
       dsimp only
-      have h3 := (finishSettingUp_spec ctx e.post s2).1.dstor
+      have h3 := (finishSettingUp_spec ctx e.post s2).1
       have h4 := finishSettingUp_stor ctx e.post s2
       generalize finishSettingUp ctx e.post s2 = r3 at h3 h4
       obtain ⟨s3, ctx', b3⟩ := r3
@@ -1436,13 +1443,30 @@ theorem run_dstor (cid : Nat) (c : Cfg) (e : Env) (s : State) :
       cases b3 with
       | false =>
         dsimp only
-        refine ⟨fun _ _ hh => by simp at hh, fun _ _ => ?_, fun _ _ hh => by simp at hh⟩
-        rw [unsyncedStop_dstor, h3, hs]; exact hk1
+        refine ⟨fun _ _ hh => by simp at hh, fun _ => ?_⟩
+        show (restoreStorage _).dstor = _
+        rw [restoreStorage_dstor, (unsyncedStop_frame4 _ _).cur, h3.cur, hs.cur, hf.cur]
       | true =>
         dsimp only
-        refine ⟨fun _ _ hh => ?_, fun _ hne => absurd rfl hne, fun _ _ hh => by simp at hh⟩
+        refine ⟨fun _ _ hh => ?_, fun hne => absurd rfl hne⟩
         simp at hh
         obtain ⟨rfl, rfl⟩ := hh
-        exact ⟨(h3.trans hs).trans hk1, h4.trans hk2⟩
+        exact ⟨(h3.dstor.trans hsd).trans hk1, h4.trans hk2⟩
+
+/-- Validate puts the default storage back, whether the dry run succeeds or not -/
+theorem validate_dstor (c : Cfg) (e : Env) (s : State) : (validate c e s).1.dstor = storOf s.cur := by
+  unfold validate
+  have hd := provisionContext_dstor s.next c e.pp s
+  have hf := provisionContext_frame s.next c e.pp s
+  generalize provisionContext s.next c e.pp s = q at hd hf
+  obtain ⟨s1, o, r⟩ := q
+  cases r with
+  | some r => exact hd.2.1 r rfl
+  | none =>
+    obtain ⟨ctx, hctx⟩ := hd.2.2 rfl
+    simp only at hctx
+    subst hctx
+    show (restoreStorage _).dstor = _
+    rw [restoreStorage_dstor, (cancel_frame _ _ _ _ _).cur, hf.cur]
 
 end CaddyModel.C01
